@@ -491,6 +491,16 @@ func (ev *Ev) unary(x *ast.UnaryExpr) Value {
 		if lv.K == lvHeap && lv.Ref != "" {
 			f := ev.u.declareFun(quote("fieldaddr:"+lv.Prefix), []Sort{SRef}, SRef)
 			av.T = app(f, lv.Ref)
+		} else if lv.K == lvLocal && lv.Obj != nil {
+			// &local: the variable escapes to the heap - a newly allocated object (not allocated before this activation
+			// created it, allocated from now on), and the same address every time it is taken
+			key := fmt.Sprintf("addrof:%s:%d", lv.Obj.Name(), lv.Obj.Pos())
+			if prev, ok := ev.st.lets[key]; ok {
+				av.T = prev.T
+			} else {
+				av.T = ev.u.allocRef(ev.st, "addr_"+lv.Obj.Name())
+				ev.st.lets[key] = scalar(av.T, SRef, nil)
+			}
 		} else {
 			av.T = ev.u.fresh("addr", SRef)
 		}
